@@ -50,6 +50,23 @@ type Obs struct {
 	Native     []string // output lines of the natively built program (nil if not requested)
 	NativeCode int
 	Runs       map[string][]simpool.Result // per variant: [0] = all-default tape, then seeded/explicit tapes
+	// LoadError is set when the JavaScript the compiler emitted for a variant does not parse.
+	LoadError, LoadVariant string
+}
+
+// judge is the property's judge, preceded by what holds for every property decided on compiled programs: the
+// emitted JavaScript must at least load.
+func (s *Spec) judge(p *Prog, o *Obs) *Verdict {
+	if o.LoadError != "" {
+		msg := o.LoadError
+		if i := strings.Index(msg, "/prog"); i >= 0 { // drop the scratch directory from the message (digest stability)
+			if j := strings.Index(msg[i:], "/out_"); j >= 0 {
+				msg = msg[:i] + msg[i+j:]
+			}
+		}
+		return &Verdict{Class: "compiled-program-does-not-load", Message: fmt.Sprintf("the JavaScript emitted for variant %s is not valid: %s", o.LoadVariant, msg), Digest: "loaderror", Variant: o.LoadVariant}
+	}
+	return s.Judge(p, o)
 }
 
 type Verdict struct {
@@ -230,6 +247,9 @@ func (e *Engine) observe(b *built, seedKey string, extra map[string][][]int, see
 			if strings.HasPrefix(r.End, "simerror:") {
 				return nil, &InfraError{r.End}
 			}
+			if strings.HasPrefix(r.End, "loaderror:") && o.LoadError == "" {
+				o.LoadError, o.LoadVariant = strings.TrimPrefix(r.End, "loaderror:"), v.Name
+			}
 		}
 		o.Runs[v.Name] = jr.Results
 	}
@@ -398,7 +418,7 @@ func RunCollect(spec Spec) (int, *evidence.Evidence) {
 					samples = append(samples, map[string]any{"program_main_go": p.Files["main.go"], "variant": vn, "suspensions": last.Fired["suspensions"], "output_head": head(last.Out, 12), "end": last.End})
 				}
 				mu.Unlock()
-				v := spec.Judge(p, o)
+				v := spec.judge(p, o)
 				if v == nil {
 					continue
 				}
@@ -576,7 +596,7 @@ func (e *Engine) check(p *Prog, tape []int, variant string, class string, seeded
 	if err != nil {
 		return nil, nil
 	}
-	v := e.spec.Judge(p, o)
+	v := e.spec.judge(p, o)
 	if v == nil || v.Class != class {
 		return nil, nil
 	}
@@ -675,7 +695,7 @@ func Replay(spec Spec, rp *evidence.Replay) int {
 		fmt.Fprintln(os.Stderr, err)
 		return 2
 	}
-	v := spec.Judge(&p, o)
+	v := spec.judge(&p, o)
 	if v == nil {
 		fmt.Println("replay: the recorded program and tape no longer fail")
 		return 0
